@@ -28,6 +28,7 @@ type TemplateDef struct {
 	Side         bool                     `json:"side,omitempty"`     // second container
 	Cpu          string                   `json:"cpu,omitempty"`      // request of container main
 	Labels       map[string]string        `json:"labels,omitempty"`
+	Namespace    string                   `json:"namespace,omitempty"` // spec.template.metadata.namespace (normally empty)
 }
 
 func (t *TemplateDef) Image() string { return "img:" + t.Letter }
@@ -95,7 +96,7 @@ func (t *TemplateDef) Spec() corev1.PodTemplateSpec {
 		lbls[k] = v
 	}
 	return corev1.PodTemplateSpec{
-		ObjectMeta: metav1.ObjectMeta{Labels: lbls},
+		ObjectMeta: metav1.ObjectMeta{Labels: lbls, Namespace: t.Namespace},
 		Spec: corev1.PodSpec{
 			Containers:   cs,
 			NodeSelector: t.NodeSelector,
@@ -265,6 +266,8 @@ type SettingDef struct {
 	ExprVals  []string          `json:"exprVals,omitempty"`
 	Container string            `json:"container"`
 	Cpu       string            `json:"cpu"`
+	Container2 string           `json:"container2,omitempty"`
+	Cpu2      string            `json:"cpu2,omitempty"`
 	AgeSec    int               `json:"ageSec"` // creation offset, seconds before start (equal/different creation times)
 }
 
@@ -279,6 +282,9 @@ func (sd *SettingDef) Object() *edsv1.ExtendedDaemonsetSetting {
 	}
 	if sd.Container != "" {
 		o.Spec.Containers = []edsv1.ExtendedDaemonsetSettingContainerSpec{{Name: sd.Container, Resources: corev1.ResourceRequirements{Requests: corev1.ResourceList{corev1.ResourceCPU: resource.MustParse(sd.Cpu)}}}}
+		if sd.Container2 != "" {
+			o.Spec.Containers = append(o.Spec.Containers, edsv1.ExtendedDaemonsetSettingContainerSpec{Name: sd.Container2, Resources: corev1.ResourceRequirements{Requests: corev1.ResourceList{corev1.ResourceCPU: resource.MustParse(sd.Cpu2)}}})
+		}
 	}
 	return o
 }
